@@ -2,7 +2,7 @@
 from . import spec
 
 CATS = ["empty", "ascii", "latin1", "combining", "rtl", "astral", "nul", "midspace", "framelike",
-        "long", "digits", "ctrl", "linesep"]
+        "long", "digits", "ctrl", "linesep", "escapes"]
 
 
 def payload(rng, cat=None):
@@ -32,6 +32,11 @@ def payload(rng, cat=None):
         s = rng.choice(["0", "1", "-1", "100", "3.14", "1e9", "٣٤", "１２", "1_000", "+5", "0x1F"])
     elif cat == "ctrl":
         s = "".join(chr(rng.choice([1, 2, 7, 8, 0x1b, 0x7f, 0x80, 0x9f, 0xad, 0xfeff, 0xfffd, 0xfffe])) for _ in range(rng.randint(1, 4))) + "x"
+    elif cat == "escapes":
+        # text that only looks like an escape, a placeholder or an entity in some other notation: it is plain payload
+        parts = ["\\n", "\\r", "\\t", "\\", "\\\\", "\\0", "\\x41", "\\u0041", "\\N{BULLET}", "%0A", "%0D", "%25", "%3B", "%s", "%d",
+                 "%(x)s", "{0}", "{}", "{{", "}}", "$HOME", "${x}", "&amp;", "&#59;", "&#10;", "\\;", "C:\\new\\readme.txt", "^M", "\\e[0m"]
+        s = "".join(rng.choice(parts) + rng.choice(["", "", "a", " ", "n", "r"]) for _ in range(rng.randint(1, 4)))
     else:  # linesep-like characters that are not CR/LF, in the middle
         s = rng.choice(["a\x0bb", "a\x0cb", "a\x1db", "a\x1eb", "a\x85b", "a b", "a b"])
     s = s.replace(";", ",").replace("\n", "").replace("\r", "")
